@@ -24,7 +24,7 @@ func init() { runners["C06"] = runC06 }
 var c06Strings = []string{
 	"", " ", "1", " 1 ", "+1", "-1", "-0", "0", "007", "1.0", "1e2", "1E2", "0x10", "1_000", "NaN", "nan", "inf", "-Inf", "Infinity",
 	"true", "T", " false", "FALSE", "f", "True", "tRUE", "abc", "ABC ", " abc", "Abc", "abd", "あ", "ａ", "à", "À", " abc", " abcà", "abc ", "\u0085x",
-	"2012-02-03", "2012-02-03 09:18:15", "2012-02-03T09:18:15Z", "2012-02-03T09:18:15+09:00", "2012/2/3", "2012-02-04", " 2012-02-03 ", "2012-02-03 09:18:15.123456789",
+	"9999-12-31", "1600-02-29", "2262-04-12", "1677-09-21", "0001-01-01 00:00:00", "2012-02-03", "2012-02-03 09:18:15", "2012-02-03T09:18:15Z", "2012-02-03T09:18:15+09:00", "2012/2/3", "2012-02-04", " 2012-02-03 ", "2012-02-03 09:18:15.123456789",
 	"9223372036854775807", "9223372036854775808", "-9223372036854775808", "-9223372036854775809", "9007199254740993", "9007199254740992", "1.5", ".5", "5.", "-1.5", "2", "3", "-3", "5", "5.0", "-5.0", "1e400", "1e-400", "0.1", "0.30000000000000004",
 	"١٢٣", "1 ", "\t2\n", "tru", "null", "NULL", "unknown", "a:b", "[S]x",
 }
@@ -32,6 +32,7 @@ var c06Ints = []int64{0, 1, -1, 2, 3, -3, 5, -5, 7, 10, 100, math.MaxInt64, math
 var c06Floats = []float64{0, math.Copysign(0, -1), 1, -1, 1.5, -1.5, 2, 3, -3, 5, -5, 5.5, -5.5, 0.1, 0.5, 2.5, 3.5, math.NaN(), math.Inf(1), math.Inf(-1), 1e308, -1e308, 5e-324, 2.2250738585072014e-308, 9007199254740992, 9007199254740993, 9223372036854775807, 9223372036854775808, -9223372036854775808, 1e19, 100, 1e-7, 123456.789, 7.25}
 var c06Times = []time.Time{
 	time.Date(2012, 2, 3, 9, 18, 15, 0, time.UTC), time.Date(2012, 2, 3, 9, 18, 15, 123456789, time.UTC), time.Date(2012, 2, 3, 0, 0, 0, 0, time.UTC),
+	time.Date(9999, 12, 31, 0, 0, 0, 0, time.UTC), time.Date(1600, 2, 29, 0, 0, 0, 0, time.UTC), time.Date(2262, 4, 12, 0, 0, 0, 0, time.UTC), time.Date(1677, 9, 20, 0, 0, 0, 0, time.UTC),
 	time.Date(2012, 2, 4, 0, 0, 0, 0, time.UTC), time.Date(1970, 1, 1, 0, 0, 0, 0, time.UTC), time.Date(1969, 12, 31, 23, 59, 59, 999999999, time.UTC), time.Date(2012, 2, 3, 0, 18, 15, 0, time.UTC),
 }
 
@@ -45,9 +46,7 @@ func c06BoundaryValues() []value.Primary {
 		vs = append(vs, value.NewFloat(f))
 	}
 	for _, s := range c06Strings {
-		if !dtUnsafe(s) {
-			vs = append(vs, value.NewString(s))
-		}
+		vs = append(vs, value.NewString(s))
 	}
 	vs = append(vs, value.NewBoolean(true), value.NewBoolean(false))
 	vs = append(vs, value.NewTernary(ternary.TRUE), value.NewTernary(ternary.FALSE), value.NewTernary(ternary.UNKNOWN))
@@ -433,9 +432,6 @@ func exprListToCoq(e parser.QueryExpression, vars map[string]value.Primary) (str
 func exprToCoq(e parser.QueryExpression, vars map[string]value.Primary) (string, bool) {
 	switch x := e.(type) {
 	case parser.PrimitiveType:
-		if s, ok := x.Value.(*value.String); ok && dtUnsafe(s.Raw()) {
-			return "", false
-		}
 		return "(ELit " + coqVal(x.Value) + ")", true
 	case parser.Variable:
 		v, ok := vars[x.Name]
